@@ -1426,9 +1426,10 @@ func (r *raft) restore(s pb.Snapshot) bool {
 		return false
 	}
 
-	// Both of `prs` and `learnerPrs` are empty means the peer is new created by
-	// conf change, in which case we should accept snapshots make it as learner.
-	if (len(r.prs) > 0 || len(r.learnerPrs) > 0) && !r.isLearner {
+	// A voter can't become learner by a snapshot. A peer that is not a voter of the
+	// configuration it knows (new created by conf change, or restarted from a log prefix
+	// that does not hold its own AddLearner yet) accepts snapshots that make it a learner.
+	if _, isVoter := r.prs[r.id]; isVoter {
 		for _, id := range s.Metadata.ConfState.Learners {
 			if id == r.id {
 				r.logger.Errorf("%x can't become learner when restores snapshot [index: %d, term: %d]", r.id, s.Metadata.Index, s.Metadata.Term)
